@@ -15,14 +15,39 @@ import (
 
 var helperKeys = []string{"a", "b", "c", "d", "e", "f"}
 
-// every key of the pool as a string field: any derived schema fits this destination
+// keys whose field is always a nested struct (over some of the sub-keys x, y: which ones depends on the version)
+var helperNested = map[string]bool{"e": true, "f": true}
+
+// every key of the pool as a string field (a struct of two strings for the nested keys): any derived
+// schema fits this destination
 var helperDest = func() reflect.Type {
 	var fs []reflect.StructField
 	for _, k := range helperKeys {
-		fs = append(fs, reflect.StructField{Name: strings.ToUpper(k), Type: reflect.TypeOf("")})
+		t := reflect.TypeOf("")
+		if helperNested[k] {
+			t = reflect.TypeOf(struct{ X, Y string }{})
+		}
+		fs = append(fs, reflect.StructField{Name: strings.ToUpper(k), Type: t})
 	}
 	return reflect.StructOf(fs)
 }()
+
+// the sub-keys of a nested field of the given version
+func nestedSubs(version int) []string {
+	return [][]string{{"x"}, {"y"}, {"x", "y"}}[version%3]
+}
+
+func helperInput() map[string]any {
+	m := map[string]any{}
+	for _, k := range helperKeys {
+		if helperNested[k] {
+			m[k] = map[string]any{"x": "x", "y": "x"}
+		} else {
+			m[k] = "x"
+		}
+	}
+	return m
+}
 
 type helperWorld struct {
 	failMode bool
@@ -32,7 +57,15 @@ type helperWorld struct {
 
 // a field schema: its version is the code of its failing test; schemas of two different types
 // (string / custom) alternate, so that replacing a key also replaces the type of its node
-func (w *helperWorld) field(version int) z.ZogSchema {
+func (w *helperWorld) field(version int, key string) z.ZogSchema {
+	if helperNested[key] {
+		// a nested struct: every part of it (its fields, its own test) carries the version
+		sc := z.Schema{}
+		for _, sub := range nestedSubs(version) {
+			sc[sub] = w.field(version, "")
+		}
+		return z.Struct(sc).TestFunc(func(v any, ctx z.Ctx) bool { return !w.failMode }, z.IssueCode(fmt.Sprintf("f%d", version)))
+	}
 	if version%2 == 1 {
 		return z.CustomFunc(func(p *string, ctx z.Ctx) bool { return !w.failMode }, z.IssueCode(fmt.Sprintf("f%d", version)))
 	}
@@ -68,10 +101,7 @@ func (w *helperWorld) observe(s *z.StructSchema) (fields [][2]string, tests, pts
 	}()
 	w.failMode = true
 	dest := reflect.New(helperDest)
-	full := map[string]any{}
-	for _, k := range helperKeys {
-		full[k] = "x"
-	}
+	full := helperInput()
 	w.testLog = nil
 	errs := s.Parse(full, dest.Interface())
 	// the struct tests in the order they ran; every one of them failed, so each has its issue
@@ -79,6 +109,7 @@ func (w *helperWorld) observe(s *z.StructSchema) (fields [][2]string, tests, pts
 		tests = append(tests, fmt.Sprint(id))
 	}
 	nTestIssues := 0
+	nested := map[string]map[string][]string{} // nested key -> version -> the paths that reported it
 	for k, is := range errs {
 		switch k {
 		case "$first":
@@ -89,24 +120,49 @@ func (w *helperWorld) observe(s *z.StructSchema) (fields [][2]string, tests, pts
 					continue
 				}
 				v := strings.TrimPrefix(i.Code, "f")
+				top, sub, _ := strings.Cut(k, ".")
 				// the issue names the type of the node that is there now
-				if n, err := strconv.Atoi(v); err == nil && i.Dtype != map[bool]string{true: "custom", false: "string"}[n%2 == 1] {
+				want := map[bool]string{true: "custom", false: "string"}
+				if helperNested[top] && sub == "" {
+					want = map[bool]string{true: "struct", false: "struct"}
+				}
+				if n, err := strconv.Atoi(v); err == nil && i.Dtype != want[n%2 == 1] {
 					v = "7700" + v + " (* issue type " + i.Dtype + " *)"
+				}
+				if helperNested[top] {
+					if nested[top] == nil {
+						nested[top] = map[string][]string{}
+					}
+					nested[top][v] = append(nested[top][v], k)
+					continue
 				}
 				fields = append(fields, [2]string{k, v})
 			}
 		}
 	}
+	// a nested field is the nested struct of one version: its own test and exactly its sub-keys report, nothing else
+	for top, byV := range nested {
+		for v, paths := range byV {
+			sort.Strings(paths)
+			if n, err := strconv.Atoi(v); err == nil {
+				want := []string{top}
+				for _, sub := range nestedSubs(n) {
+					want = append(want, top+"."+sub)
+				}
+				if fmt.Sprint(paths) != fmt.Sprint(want) {
+					v = "7800" + v + " (* reported at " + strings.Join(paths, " ") + " *)"
+				}
+			}
+			fields = append(fields, [2]string{top, v})
+		}
+	}
 	if nTestIssues != len(w.testLog) {
 		tests = append(tests, "9997") // a struct test ran and failed without an issue of its own (or the reverse)
 	}
-	sort.Slice(fields, func(a, b int) bool { return fields[a][0] < fields[b][0] })
+	sort.Slice(fields, func(a, b int) bool { return fields[a][0]+"\x00"+fields[a][1] < fields[b][0]+"\x00"+fields[b][1] })
 	w.failMode = false
 	w.ptLog = nil
-	data := map[string]any{}
-	for _, k := range helperKeys {
-		data[k] = "x"
-	}
+	data := helperInput()
 	dest = reflect.New(helperDest)
 	if errs := s.Parse(data, dest.Interface()); errs != nil {
 		pts = append(pts, "9999") // unexpected: a valid record was rejected
@@ -145,7 +201,7 @@ func Helpers(seed uint64, n int) *Out {
 					continue
 				}
 				version++
-				sc[key] = w.field(version)
+				sc[key] = w.field(version, key)
 				fs[key] = version
 				order = append(order, key)
 			}
